@@ -283,6 +283,14 @@ func shapesUpTo(b DataBounds, minRank int) [][]int {
 	return out
 }
 
+func prodInts(d []int) int {
+	n := 1
+	for _, x := range d {
+		n *= x
+	}
+	return n
+}
+
 func dimsLabel(d []int) string { return strings.ReplaceAll(fmt.Sprint(d), " ", ",") }
 
 // mkTensorPeriodic creates an operand [n,1] whose elements alternate between the two real symbols <name>p and
@@ -324,6 +332,40 @@ func (e *OpEngine) mkTensorPeriodicR(name string, n int, tracked, flat bool) int
 		rows[i] = interp.IfaceV{T: e.anySlice(), V: e.M.SliceOf(e.A.AnyT, []interp.Value{el}, "data:"+name)}
 	}
 	interp.Store(t.C.Fields[e.A.FData], interp.IfaceV{T: e.anySlice(), V: e.M.SliceOf(e.A.AnyT, rows, "data:"+name)})
+	return t
+}
+
+// mkTensorPeriodicDims: an operand of the given concrete shape whose elements alternate between the two real symbols
+// <name>p and <name>q along the row-major flat index (long tensors with FEW rows: [1,n], [2,n/2], [3,n/3]).
+func (e *OpEngine) mkTensorPeriodicDims(name string, dims []int, tracked bool) interp.PtrV {
+	t := e.mkTensor(name, TensorArg{Dims: concreteDims(dims), Tracked: tracked, Rng: spec.Rng(-10, 10)})
+	P, Q := sym.SymE(name+"p"), sym.SymE(name+"q")
+	flat := sym.PInt(0)
+	stride := 1
+	for i := len(dims) - 1; i >= 0; i-- {
+		flat = flat.Add(spec.Ix(i).MulInt(int64(stride)))
+		stride *= dims[i]
+	}
+	par := sym.IMod(flat, sym.PInt(2))
+	e.W.InfoOf(t).Elem = sym.Add(sym.Mul(P, sym.Ind(sym.IntCond(sym.CEq(par, sym.PInt(0))))), sym.Mul(Q, sym.Ind(sym.IntCond(sym.CEq(par, sym.PInt(1))))))
+	k := 0
+	var fill func(d []int) interp.Value
+	fill = func(d []int) interp.Value {
+		if len(d) == 0 {
+			v := P
+			if k%2 == 1 {
+				v = Q
+			}
+			k++
+			return interp.IfaceV{T: e.A.FloatT, V: interp.FloatV{E: v}}
+		}
+		vals := make([]interp.Value, d[0])
+		for i := range vals {
+			vals[i] = fill(d[1:])
+		}
+		return interp.IfaceV{T: e.anySlice(), V: e.M.SliceOf(e.A.AnyT, vals, "data:"+name)}
+	}
+	interp.Store(t.C.Fields[e.A.FData], fill(dims))
 	return t
 }
 
@@ -390,6 +432,97 @@ func (e *OpEngine) RunDataInstance(c *DataCall) {
 			default:
 				if c.OnResult != nil {
 					c.OnResult(e, dc.Name, out.Results)
+				}
+				// probes: the RESULT object, as the implementation built it (with whatever private bookkeeping it
+				// carries: fill markers, memoised reductions, cached shapes), is handed to an element-wise operation and
+				// to a reduction; both must see the elements the specification gives the result
+				if e.ProbeResults && c.Steps == 0 && len(out.Results) >= 1 && (len(out.Results) == 1 || interp.IsNil(out.Results[len(out.Results)-1])) {
+					if r, ok := e.W.AsTensor(out.Results[0]); ok && c.Fn.Name() != "Scale" && c.Fn.Name() != "Sum" && c.Fn.Name() != "Add" {
+						small := true
+						{
+							n := int64(1)
+							for _, d := range e.W.Dims(r) {
+								if v, ok := d.Const(); ok {
+									n *= v
+								}
+							}
+							small = n <= 12 && len(e.W.Dims(r)) <= 3
+						}
+						if info := e.W.InfoOf(r); info != nil && info.Has && small {
+							for _, pn := range []string{"Scale", "Sum", "Add"} {
+								pf := e.method(pn)
+								if pf == nil {
+									continue
+								}
+								e.curLabel = label + " → probe " + pn + " on the result"
+								pargs := []interp.Value{r}
+								if pn == "Scale" {
+									pargs = append(pargs, interp.FloatV{E: sym.SymE("probe_c")})
+								}
+								if pn == "Add" {
+									// the binary path (operand alignment / expansion helpers) with the result as both operands
+									pargs = append(pargs, e.W.Boxed(r))
+								}
+								po := e.M.Run(func() interp.Value { return e.M.Call(pf, pargs, nil) })
+								e.ProbeRuns++
+								if po.Kind == interp.Panicked {
+									e.find("S6.panic", core.FuncKey(pf), "panic:"+panicClass(po.Panic.Msg), e.P.Pos(po.Panic.Pos),
+										fmt.Sprintf("public call panics in %s: %s [instance %s]", shortFn(po.Panic.Fn), po.Panic.Msg, e.curLabel))
+								} else if po.Kind == interp.Returned && pn == "Sum" && len(po.Results) == 1 {
+									if wantV, ok := e.W.Method("Sum", r, nil); ok {
+										e.compareScalar("cputensor.(*CPUTensor).Sum", e.P.FuncPos(pf), po.Results[0], wantV, e.curLabel)
+									}
+								}
+							}
+							// … and once more after one element of the result was replaced through the public Patch: a copy that
+							// inherits the result's private bookkeeping and then writes elements is where such state goes stale
+							_, infElem := sym.ClosedInf(info.Elem)
+							if dims := e.W.Dims(r); len(dims) >= 1 && len(dims) <= 3 && e.method("Patch") != nil && !sym.HasNaN(info.Elem) && !infElem {
+								conc := true
+								ones := make([]int, len(dims))
+								idx := make([][2]int, len(dims))
+								for i, d := range dims {
+									if v, ok := d.Const(); !ok || v < 1 {
+										conc = false
+									}
+									ones[i] = 1
+									idx[i] = [2]int{0, 1}
+								}
+								if conc {
+									e.curLabel = label + " → probe Patch of element 0 of the result"
+									src := e.mkTensorD("Z", ones, false, spec.Rng(-10, 10))
+									pf := e.method("Patch")
+									po := e.M.Run(func() interp.Value {
+										return e.M.Call(pf, []interp.Value{r, e.cRanges(idx), e.W.Boxed(src)}, nil)
+									})
+									e.ProbeRuns++
+									if po.Kind == interp.Returned && len(po.Results) == 2 && interp.IsNil(po.Results[1]) {
+										if r2, ok := e.W.AsTensor(po.Results[0]); ok {
+											for _, pn := range []string{"Scale", "Sum"} {
+												pf2 := e.method(pn)
+												if pf2 == nil {
+													continue
+												}
+												e.curLabel = label + " → probe Patch of element 0, then " + pn
+												pargs := []interp.Value{r2}
+												if pn == "Scale" {
+													pargs = append(pargs, interp.FloatV{E: sym.SymE("probe_c")})
+												}
+												po2 := e.M.Run(func() interp.Value { return e.M.Call(pf2, pargs, nil) })
+												e.ProbeRuns++
+												if po2.Kind == interp.Returned && pn == "Sum" && len(po2.Results) == 1 {
+													if wantV, ok := e.W.Method("Sum", r2, nil); ok {
+														e.compareScalar("cputensor.(*CPUTensor).Sum", e.P.FuncPos(pf2), po2.Results[0], wantV, e.curLabel)
+													}
+												}
+											}
+										}
+									}
+								}
+							}
+							e.curLabel = label
+						}
+					}
 				}
 			}
 		})
@@ -610,7 +743,11 @@ func (e *OpEngine) DataInstances(want func(string) bool, b DataBounds) []*DataCa
 			}
 			for vi := 0; vi < nv; vi++ {
 				vi := vi
-				add(&DataCall{Fn: fn, Label: fmt.Sprintf("%s A=%s B=%s v%d", name, dimsLabel(da), dimsLabel(db), vi), Facts: facts, Build: func(e *OpEngine) []interp.Value {
+				steps := 0
+				if prodInts(da)+prodInts(db) > 300 {
+					steps = 40000000 // operands beyond a size constant in the hundreds or thousands
+				}
+				add(&DataCall{Fn: fn, Steps: steps, Label: fmt.Sprintf("%s A=%s B=%s v%d", name, dimsLabel(da), dimsLabel(db), vi), Facts: facts, Build: func(e *OpEngine) []interp.Value {
 					a := e.mkTensorD("A", da, true, rng)
 					bt := e.mkTensorD("B", db, true, rng)
 					if mid != nil {
@@ -727,6 +864,50 @@ func (e *OpEngine) DataInstances(want func(string) bool, b DataBounds) []*DataCa
 			}})
 		}
 	}
+	// every element +Inf (only for properties whose quantifier admits non-finite values, e.g. upstream gradients):
+	// a sum of equal infinities is that infinity, a mean likewise — compensated / running schemes give Inf-Inf = NaN
+	if e.NonFinite {
+		for _, nm := range []string{"Sum", "Avg", "Mean", "SumAlong", "AvgAlong", "MeanAlong"} {
+			if !want(nm) {
+				continue
+			}
+			nm := nm
+			fn := e.method(nm)
+			key := "cputensor.(*CPUTensor)." + nm
+			variants := []int{-1}
+			if strings.HasSuffix(nm, "Along") {
+				variants = []int{0, 1}
+			}
+			for _, dim := range variants {
+				dim := dim
+				d := []int{3, 2}
+				lbl := fmt.Sprintf("%s A=%s, every element +Inf", nm, dimsLabel(d))
+				if dim >= 0 {
+					lbl += fmt.Sprintf(" dim=%d", dim)
+				}
+				var recv interp.PtrV
+				dc := &DataCall{Fn: fn, Label: lbl, Build: func(e *OpEngine) []interp.Value {
+					recv = e.mkTensorConst("A", d, false, sym.NumF(math.Inf(1)))
+					if dim >= 0 {
+						return []interp.Value{recv, cInt(dim)}
+					}
+					return []interp.Value{recv}
+				}}
+				if dim < 0 {
+					dc.OnResult = func(e *OpEngine, caseName string, res []interp.Value) {
+						e.did("D.elements", key)
+						wantV, ok := e.W.Method(nm, recv, nil)
+						if !ok || len(res) != 1 {
+							e.undecided("D.elements", key, "no-spec", e.P.FuncPos(fn), "no specification for "+nm)
+							return
+						}
+						e.compareScalar(key, e.P.FuncPos(fn), res[0], wantV, lbl)
+					}
+				}
+				add(dc)
+			}
+		}
+	}
 	// beyond an element-count constant in the thousands: two-symbol periodic operands
 	for _, c := range e.hugeThresholds() {
 		n := c + 1
@@ -822,6 +1003,44 @@ func (e *OpEngine) DataInstances(want func(string) bool, b DataBounds) []*DataCa
 				}
 			}
 			add(dc)
+		}
+	}
+	// … and long operands with FEW rows (a row-chunking scheme divides by rows/workers)
+	for _, c := range e.hugeThresholds() {
+		n := c + 1
+		for _, rows := range []int{1, 2, 3} {
+			d := []int{rows, (n + rows - 1) / rows}
+			for _, nm := range []string{"Exp", "Scale", "Pow", "Tanh", "Sum", "Mean", "SumAlong", "MeanAlong"} {
+				if !want(nm) {
+					continue
+				}
+				nm := nm
+				fn := e.method(nm)
+				key := "cputensor.(*CPUTensor)." + nm
+				lbl := fmt.Sprintf("%s A=%s two-symbol periodic", nm, dimsLabel(d))
+				var recv interp.PtrV
+				dc := &DataCall{Fn: fn, Label: lbl, Steps: 40000000, Build: func(e *OpEngine) []interp.Value {
+					recv = e.mkTensorPeriodicDims("A", d, false)
+					switch nm {
+					case "Scale", "Pow":
+						return []interp.Value{recv, interp.FloatV{E: sym.NumI(2)}}
+					case "SumAlong", "MeanAlong":
+						return []interp.Value{recv, cInt(0)}
+					}
+					return []interp.Value{recv}
+				}}
+				if nm == "Sum" || nm == "Mean" {
+					dc.OnResult = func(e *OpEngine, caseName string, res []interp.Value) {
+						e.did("D.elements", key)
+						wantV, ok := e.W.Method(nm, recv, nil)
+						if !ok || len(res) != 1 {
+							return
+						}
+						e.compareScalar(key, e.P.FuncPos(fn), res[0], wantV, lbl)
+					}
+				}
+				add(dc)
+			}
 		}
 	}
 	bpairs := broadcastPairsC(b)
